@@ -185,7 +185,7 @@ func runEmStep(p *packages.Package, d *declIndex, v emVariant) (*emResult, strin
 	}
 	cfg := vn.Config{Pkg: p, TypeName: "Real64", Spec: distSpec, InlineOps: inlineOps, Decl: d.find, ParamNames: true, MaxDepth: 6, UnrollConst: true,
 		RecvStruct: m1, Opaque: hook,
-		ParamValues: map[string]vn.Value{"mixture1": m1, "mixture2": m2, "data": &vn.OpaqueVal{What: "dataset"}, "meta": meta, "tmp": &tmp, "p": &vn.OpaqueVal{What: "pool"}}}
+		ParamList: []vn.Value{m1, m2, &vn.OpaqueVal{What: "dataset"}, meta, &tmp, &vn.OpaqueVal{What: "pool"}}}
 	paths, und := vn.Run(cfg, fd)
 	if und != nil {
 		return nil, "EmStep left the interpreter's idiom set: " + und.Msg
